@@ -187,6 +187,17 @@ def sign_single(inp, out, key_name, key_id, alg, context, action="error"):
     )
 
 
+def sign_recursive_object(inp, out, config):
+    """Library use of the recursive signer: RecursiveSigner(envelope, configuration dictionary, name), as cmd_sign.recursive_sign builds it."""
+    from suit_generator import cmd_sign
+
+    from pathlib import Path
+
+    env = _need(cmd_sign, "load_envelope")(Path(inp))
+    signer = _need(cmd_sign, "RecursiveSigner")(env, config, Path(inp))
+    _need(cmd_sign, "save_envelope")(Path(out), signer.recursive_sign())
+
+
 def sign_recursive(inp, out, config_path):
     from suit_generator import cmd_sign
 
